@@ -35,6 +35,17 @@ CLAIMED["C12"] = dict(
     technique="Kani/CBMC bounded model checking (SAT, cadical): inductive step per stack instruction + dispatch differential",
     design="4 (C12)")
 
+CLAIMED["C03"] = dict(
+    text="Bounded model checking of the compiled pipeline executor (pipeline_fwd / pipeline_inv / Op::apply): a "
+         "pipeline of 0..3 steps with non-commuting exact marker kernels, symbolic per-step inv/omit_fwd/omit_inv "
+         "(all 2^(3N) placements), symbolic per-step success counts and all operand bit patterns equals the fold "
+         "written from the property text, both directions, incl. the pipeline itself inverted.",
+    note=TRUST + "M-BTREE for the flag sets; steps are harness-built Op values (struct literals), so the text front "
+         "end (placement of modifiers in definition text, macros) is outside this check; see Engine S obligations "
+         "when present.",
+    technique="Kani/CBMC bounded model checking (SAT): pipeline fold vs reference fold over symbolic flags",
+    design="4 (C03)")
+
 NA = {
     "C05": "differential identities over compositions of libm functions on the ellipsoid: no precise libm in CBMC, no "
            "theory of sin/atanh/exp in z3/cvc5; uninterpreted functions erase what the property is about (DESIGN 4/C05)",
